@@ -756,6 +756,43 @@ def judge_c09(ops, impl):
             bad.append((i, 'middleware chain %r, expected (innermost first) %r' % (wraps, want)))
     return bad
 
+def judge_c09_factories(ops, impl):
+    """every middleware factory is invoked exactly once per wrapped handler: between two `mw-calls` lines that bracket ONE
+    Handle or Use on a plain router, the number of factory invocations is the number of handlers the call wraps"""
+    bad = []
+    last = None          # (index, count) of the previous mw-calls line
+    between = []         # mutating ops since then: (i, toks, obs, expected or None)
+    for i, toks, obs, w in walk(ops, impl):
+        if toks[0] == 'mw-calls' and obs.startswith('mwcalls '):
+            n = int(obs.split()[1])
+            if last is not None and len(between) == 1 and between[0][3] is not None:
+                j, t2, o2, exp = between[0]
+                if n - last[1] != exp:
+                    bad.append((j, 'middleware factories invoked %d times by this call, it wraps %d handler layers' % (n - last[1], exp)))
+            last = (i, n); between = []
+            continue
+        if toks[0] in ('serve', 'gserve', 'routes', 'dump', 'url', 'group-names', 'group-routes', 'group-router', 'match', 'spec-adm'):
+            continue
+        exp = None
+        r = w.routers.get(int(toks[1])) if len(toks) > 1 and toks[1].isdigit() and toks[0] in ('handle', 'use') else None
+        in_group = r is not None and any(int(toks[1]) in g['routers'] for g in w.groups.values())
+        if r is not None and not r.illformed and not in_group:
+            if toks[0] == 'handle':
+                if obs != 'ok':
+                    exp = 0
+                else:
+                    pattern = decB(toks[2]); ms = decL(toks[5])
+                    methods = [m.decode('latin-1') for m in ms] if ms else list(ANY)
+                    layers = len(decNat(toks[4])) + len(r.use)
+                    live = bool(r.table.get(pattern))
+                    exp = layers * (len(methods) + (1 if 'GET' in methods else 0) + (0 if live else 2))
+            elif toks[0] == 'use' and obs == 'ok':
+                handlers = sum(len(t) + (1 if 'GET' in t else 0) + 2 for t in r.table.values() if t)
+                handlers += 1 + (1 if r.trace else 0) + 2        # 404, TRACE, and the server-wide node's OPTIONS and 405
+                exp = len(decNat(toks[2])) * handlers
+        between.append((i, toks, obs, exp))
+    return bad
+
 def subst(segs, params):
     out = b''
     for s in segs:
@@ -1480,11 +1517,11 @@ JUDGES = {
     'C06': [judge_c03, judge_c04, judge_nofault],
     'C07': [judge_c07, judge_c07_decoys],
     'C08': [judge_c08],
-    'C09': [judge_c09],
+    'C09': [judge_c09, judge_c09_factories],
     'C10': [judge_c10],
     'C11': [lambda o, i: judge_cors(o, i, 'C11')],
     'C12': [lambda o, i: judge_cors(o, i, 'C12')],
-    'C13': [judge_c13],
+    'C13': [judge_c13, judge_c09],
     'C14': [judge_c14, judge_nofault],
     'C15': [judge_c15],
     'C16': [judge_c16],
